@@ -17,7 +17,7 @@ def headersOfSx (x : Sx) : Option (List (Bytes × Bytes)) :=
     | _ => none
   | _ => none
 
-def exchangeOfSx : Sx → Option (Spec.Msg × Spec.Msg)
+def exchangeCore : Sx → Option (Spec.Msg × Spec.Msg)
   | .list [.atom "ex", .list [.atom "req", m, t, minor, hs, f, b], .list [.atom "resp", st, reason, rminor, rhs, rf, rb]] => do
     let q : Spec.Msg := { isRequest := true, method := ← m.asBytes?, target := ← t.asBytes?, minor := ← minor.asNat?,
                           headers := ← headersOfSx hs, framing := framingOfSx f, body := ← b.asBytes? }
@@ -25,6 +25,13 @@ def exchangeOfSx : Sx → Option (Spec.Msg × Spec.Msg)
                           headers := ← headersOfSx rhs, framing := framingOfSx rf, body := ← rb.asBytes? }
     some (q, r)
   | _ => none
+
+/-- an exchange, possibly with interim responses `(pre 100 103 ...)` in front of the final one -/
+def exchangeOfSx : Sx → Option (Spec.Msg × Spec.Msg)
+  | .list [.atom "ex", q, r, .list (.atom "pre" :: sts)] => do
+    let (q', r') ← exchangeCore (.list [.atom "ex", q, r])
+    some (q', { r' with pre := ← sts.mapM Sx.asNat? })
+  | x => exchangeCore x
 
 def field? (obs : Sx) (name : String) : Option (List Sx) :=
   match obs with
